@@ -99,6 +99,11 @@ Theorem C07_cache_update : forall c r' nb, CacheChainP.Inv c -> In (r_key r') (m
   (forall b, In b (map fst c' ++ fr) -> In b (nb :: map fst c)) /\ (length fr <= 1)%nat.
 Proof. exact update_refines. Qed.
 
+(* the model's test "does the record still fit the last block" is the library's (condition slice regenerated from adfAddInCache) *)
+Theorem C07_cache_fits_is_librarys : forall (rs : list crec) (r : crec),
+  d_adfAddInCache_fits (Z.of_nat (r_len r)) (Z.of_nat (used rs)) = 1 <-> (Nat.leb (used rs + r_len r) AREA) = true.
+Proof. exact add_fits_is_librarys. Qed.
+
 Example C07_cache_example :
   let r k l := {| r_key := k; r_len := l; r_body := [] |} in
   let c1 := c_add (c_add (c_add [(881, [])] (r 900 40%nat) 0) (r 901 440%nat) 0) (r 902 40%nat) 950 in
@@ -114,3 +119,4 @@ Print Assumptions C07_codec_roundtrip.
 Print Assumptions C07_codec_frame.
 Print Assumptions C07_reader_stays_inside.
 Print Assumptions C07_area_bound.
+Print Assumptions C07_cache_fits_is_librarys.
